@@ -75,7 +75,46 @@ def sum_terms(bools):
     return out
 
 
+NX_DEGREE = None
+
+
+def nx_degree(adj_dom, x):
+    """degree of x in the graph with adjacency relation adj (uninterpreted; the facts used about it are stated as axioms of the
+    contracts that need them and certified separately)"""
+    global NX_DEGREE
+    if NX_DEGREE is None:
+        from .types import TNode
+        NX_DEGREE = z3.Function("nx_degree", adj_dom.sort(), TNode.sort, z3.IntSort())
+    return NX_DEGREE(adj_dom, x)
+
+
+def graph_method(eng, bm, obj, name, args, kwargs, node):
+    adj, nodes = obj.fields["adj"], obj.fields["nodes"]
+    has = lambda a, b: z3.Select(adj.dom, key_term(adj.k, (a, b)))      # noqa: E731
+    if name == "has_edge":
+        return has(args[0], args[1])
+    if name == "degree" and len(args) == 1:
+        d = nx_degree(adj.dom, args[0])
+        eng.facts.add(d >= 0)
+        return d
+    if name == "has_node":
+        return z3.Select(nodes.dom, key_term(nodes.k, args[0]))
+    if name == "add_edge" and len(args) == 2 and not kwargs:
+        a, b = args
+        for x in (a, b):
+            if not isinstance(nodes.v, type(nodes.v)) or nodes.v.sorts():
+                # endpoints that are not nodes yet would be created with empty attributes: only graphs whose node table has
+                # all-optional attributes could express that
+                eng.may_raise("Unsupported", b_not(z3.Select(nodes.dom, key_term(nodes.k, x))), node, "add_edge creating a node")
+        new_dom = z3.Store(z3.Store(adj.dom, key_term(adj.k, (a, b)), True), key_term(adj.k, (b, a)), True)
+        _wb(eng, bm, obj.with_field("adj", SSet(adj.k, new_dom)))
+        return None
+    raise Unsupported(f"nx.Graph.{name}")
+
+
 def rec_method(eng, bm, obj, name, args, kwargs, node):
+    if obj.cls == "nx.Graph":
+        return graph_method(eng, bm, obj, name, args, kwargs, node)
     # mapping-like records (node attribute dicts)
     if name == "get":
         key = args[0]
